@@ -42,12 +42,13 @@ def _import(text, enforce=True, force_path=None):
     import zlib
     use_path = text.isascii() and "\r" not in text and (zlib.crc32(text.encode()) % 3 == 0 if force_path is None else force_path)
     if not use_path:
-        return Bf3File.bf2_import(io.StringIO(text), enforce)
+        # enforcing BF3 compatibility is the default of the parameter: left out every other time it is wanted
+        return Bf3File.bf2_import(io.StringIO(text)) if enforce and len(text) % 2 else Bf3File.bf2_import(io.StringIO(text), enforce)
     p = b3.tmp_path()
     try:
         with open(p, "w", newline="") as fh:
             fh.write(text)
-        return Bf3File.bf2_import(p, enforce)
+        return Bf3File.bf2_import(p) if enforce and len(text) % 4 < 2 else Bf3File.bf2_import(p, enforce_bf3_compatibility=enforce)
     finally:
         os.unlink(p)
 
